@@ -73,7 +73,16 @@ impl CoordIndex {
             });
         });
 
-        index.max_matrix_index = index.direct_index.len().max(1) - 1;
+        index.max_matrix_index = index
+            .direct_index
+            .iter()
+            .map(|(location, value)| match location {
+                Location::Reference { .. } => *value,
+                _ => 0,
+            })
+            .max()
+            .unwrap_or(0)
+            .max(index.direct_index.len().max(1) - 1);
 
         let start_offset = index.direct_index.len() * index.direct_index.len();
         // NOTE promote custom locations to the index to use usize outside
